@@ -326,7 +326,7 @@ def deep_compare(obj1: Any,
                         if not isinstance(value2, bool):
                             return -1
                         elif value1 is not value2:
-                            return -1 if value1 else 1
+                            return 1 if value1 else -1  # op:boolean-less-than: false < true
 
                     elif isinstance(value2, bool):
                         return -1
